@@ -2,5 +2,5 @@
 Require Extraction.
 Require Import ExtrOcamlBasic.
 From LLB Require Import Base.Bytes Codec.Codec Codec.FileObs Ninja.NinjaRules.
-Extraction "extracted/Model_ninjabuild.ml" decide produced rule_step executes command_valid input_valid input_value
+Extraction "extracted/Model_ninjabuild.ml" decide decide_unrepaired produced rule_step executes command_valid input_valid input_value
   newest_mod_time run_complete select_result select_valid missing_info is_missing zeros32.
